@@ -105,6 +105,34 @@ def copula_obligations(chk):
         return [rho > -1, rho < 1], z3.And(o[0, 0] == 1, o[1, 1] == 1, o[0, 1] == rho, o[1, 0] == rho)
     obs.append(Obligation("GaussianCopula: base normal has unit variances and correlation rho (scale_tril scale_tril^T = [[1,rho],[rho,1]])", [e2], g2, signature="copula:scale"))
 
+    # batched dependence: member [i, j] of the batch uses dependence[i, j] (non-square batch, all entries symbolic)
+    from ..jx2smt import sym_array
+    B = (2, 3)
+
+    def tril_batch(R):
+        c = GaussianCopula(R)
+        L = c.distribution.scale_tril
+        return dict(S=jnp.einsum("...ij,...kj->...ik", L, L), loc=jnp.asarray(c.distribution.loc) + jnp.zeros(B + (2,)))
+    Rs = sym_array("cop_R", B)
+    domb = {c.decl().name(): (-0.95, 0.95) for c in cells(Rs)}
+    eb = chk.note_enc(Enc("GaussianCopula scale_tril, batch (2,3)", tril_batch, (jnp.linspace(-0.6, 0.7, 6).reshape(B),), (Rs,), domain=domb))
+
+    def gb(V):
+        S = V.out["S"]
+        if np.shape(S) != B + (2, 2):
+            return [], z3.BoolVal(False)
+        rng = [z3.And(r > -1, r < 1) for r in cells(Rs)]
+        return rng, z3.And(*[z3.And(S[i, j, 0, 0] == 1, S[i, j, 1, 1] == 1, S[i, j, 0, 1] == Rs[i, j], S[i, j, 1, 0] == Rs[i, j]) for i in range(B[0]) for j in range(B[1])],
+                           *[c == 0 for c in cells(V.out["loc"])])
+    obs.append(Obligation("GaussianCopula with a (2,3) batch of dependences: batch member [i,j] has correlation dependence[i,j] (and zero mean)", [eb], gb, signature="copula:batch"))
+    for shp in (B, (2, 2), (2, 1, 2)):
+        def shapes(shp=shp):
+            c = GaussianCopula(jnp.full(shp, 0.3))
+            return tuple(c.batch_shape), tuple(jax.eval_shape(lambda p: c.log_prob(p), jnp.zeros(shp + (2,))).shape)
+        got = chk.guarded(f"copula:batch-shape:{shp}", f"GaussianCopula with batch shape {shp}", shapes)
+        if got is not None and got != (shp, shp):
+            chk.violation(f"copula:batch-shape:{shp}", f"GaussianCopula with dependence of shape {shp}: batch_shape / log_prob shape are {got}", dict(reproduced=True, inputs=dict(dependence_shape=list(shp)), observed=dict(batch_shape=list(got[0]), log_prob_shape=list(got[1]))))
+
     # argument validation: the assert statements of the constructor, sliced from the current source
     src = textwrap.dedent(inspect.getsource(GaussianCopula.__init__))
     fn = ast.parse(src).body[0]
